@@ -415,6 +415,80 @@ theorem heapPop_spec [DecidableEq β] {cmp : β → β → Ordering} (L : CmpLaw
       rw [← List.cons_append, hl2]
     · exact heapReplaceRoot_heap L _ _ (heapOk_dropLast _ hh)
 
+/-! ### the source's loop bounds are the heap bounds -/
+
+/-- what `Gen/MergeHeap.lean` (regenerated from merge_iterator.rs) has to say for the sift-down to be
+a sift-down of a binary heap of `len` elements -/
+def MergeBoundsExact : Prop :=
+  (∀ i, Gen.mergeLeftIdx i = 2 * i + 1) ∧ (∀ i, Gen.mergeRightIdx i = 2 * i + 2) ∧
+  (∀ a n, 0 < n → Gen.mergeLeftStop a n = decide (n ≤ a)) ∧ (∀ a n, 0 < n → Gen.mergeRightOk a n = decide (a < n))
+
+theorem selChildSrc_eq (hb : MergeBoundsExact) (cmp : β → β → Ordering) (h : List β) (i : Nat) (l : β) :
+    selChildSrc cmp h i l = selChild cmp h i l := by
+  obtain ⟨hl, hr, _, hro⟩ := hb
+  unfold selChildSrc selChild
+  by_cases hlen : h.length = 0
+  · have hnil : h = [] := List.eq_nil_of_length_eq_zero hlen
+    subst hnil
+    simp only [hl, hr, List.getElem?_nil]
+    split <;> rfl
+  simp only [hl, hr, hro _ _ (Nat.pos_of_ne_zero hlen)]
+  by_cases hr2 : 2 * i + 2 < h.length
+  · simp only [hr2, decide_true, if_true]
+  · have : h[2 * i + 2]? = none := List.getElem?_eq_none (by omega)
+    simp [hr2, this]
+
+theorem siftDownSrc_eq (hb : MergeBoundsExact) (cmp : β → β → Ordering) :
+    ∀ (fuel : Nat) (h : List β) (i : Nat), siftDownSrc cmp fuel h i = siftDown cmp fuel h i := by
+  have hsel := selChildSrc_eq hb cmp
+  obtain ⟨hl, hr, hls, hro⟩ := hb
+  intro fuel
+  induction fuel with
+  | zero => intro h i; rfl
+  | succ n ih =>
+    intro h i
+    by_cases hlen : h.length = 0
+    · have hnil : h = [] := List.eq_nil_of_length_eq_zero hlen
+      subst hnil
+      simp only [siftDownSrc, siftDown, List.getElem?_nil]
+      split <;> rfl
+    simp only [siftDownSrc, siftDown, hl, hls _ _ (Nat.pos_of_ne_zero hlen), hsel]
+    by_cases hstop : h.length ≤ 2 * i + 1
+    · have hnone : h[2 * i + 1]? = none := List.getElem?_eq_none hstop
+      simp only [hstop, decide_true, if_true, hnone]
+      cases h[i]? <;> rfl
+    · simp only [hstop, decide_false, Bool.false_eq_true, if_false]
+      cases hx : h[i]? with
+      | none => rfl
+      | some x =>
+        cases hlv : h[2 * i + 1]? with
+        | none => rfl
+        | some l =>
+          simp only
+          cases hc : h[selChild cmp h i l]? with
+          | none => rfl
+          | some c =>
+            simp only
+            split
+            · exact ih _ _
+            · rfl
+
+theorem mergeReplaceRoot_eq (hb : MergeBoundsExact) (cmp : β → β → Ordering) (h : List β) (x : β) :
+    mergeReplaceRoot cmp h x = heapReplaceRoot cmp h x := by
+  unfold mergeReplaceRoot heapReplaceRoot
+  exact siftDownSrc_eq hb cmp _ _ _
+
+theorem mergePop_eq (hb : MergeBoundsExact) (cmp : β → β → Ordering) (h : List β) :
+    mergePop cmp h = heapPop cmp h := by
+  unfold mergePop heapPop
+  cases h with
+  | nil => rfl
+  | cons r t =>
+    simp only
+    cases (r :: t).getLast? with
+    | none => rfl
+    | some last => simp only [mergeReplaceRoot_eq hb]
+
 /-! ### MergeIterator -/
 
 section MergeHeap
@@ -449,7 +523,7 @@ theorem head_le_of_sorted {cmp : α → α → Ordering} (L : CmpLaws cmp) (e : 
   · unfold SortedBy at hs
     exact (List.pairwise_cons.1 hs).1 y hy
 
-theorem mergeStep_spec {cmp : α → α → Ordering} (L : CmpLaws cmp) (h : List (MEntry α)) (hinv : MergeInv cmp h)
+theorem mergeStep_spec (hb : MergeBoundsExact) {cmp : α → α → Ordering} (L : CmpLaws cmp) (h : List (MEntry α)) (hinv : MergeInv cmp h)
     (x : α) (h' : List (MEntry α)) (hstep : mergeStep cmp h = some (x, h')) :
     MergeInv cmp h' ∧ (x :: remaining h').Perm (remaining h) ∧ ∀ y ∈ remaining h, leBy cmp x y := by
   have LE := entryCmp_laws L
@@ -464,7 +538,7 @@ theorem mergeStep_spec {cmp : α → α → Ordering} (L : CmpLaws cmp) (h : Lis
       obtain ⟨e2, he2, hy2⟩ := List.mem_flatMap.1 hy
       have h1 : leBy cmp e.v e2.v := heap_root_le_mem LE e t hheap e2 he2
       exact L.le_trans h1 (head_le_of_sorted L e2 (hsorted e2 he2) y hy2)
-    simp only [mergeStep] at hstep
+    simp only [mergeStep, mergeReplaceRoot_eq hb, mergePop_eq hb] at hstep
     cases hbuf : e.buf with
     | cons b bs =>
       simp only [hbuf, Option.some.injEq, Prod.mk.injEq] at hstep
@@ -518,7 +592,7 @@ theorem mergeStep_spec {cmp : α → α → Ordering} (L : CmpLaws cmp) (h : Lis
           simp only at hload
           simp [remaining, hload]
 
-theorem mergeHeapLoop_spec {cmp : α → α → Ordering} (L : CmpLaws cmp) :
+theorem mergeHeapLoop_spec (hb : MergeBoundsExact) {cmp : α → α → Ordering} (L : CmpLaws cmp) :
     ∀ (fuel : Nat) (h : List (MEntry α)), MergeInv cmp h → (remaining h).length ≤ fuel →
       SortedBy cmp (mergeHeapLoop cmp fuel h) ∧ (mergeHeapLoop cmp fuel h).Perm (remaining h) := by
   intro fuel
@@ -537,7 +611,7 @@ theorem mergeHeapLoop_spec {cmp : α → α → Ordering} (L : CmpLaws cmp) :
       | nil => simp [remaining, SortedBy]
       | cons e t =>
         exfalso
-        simp only [mergeStep] at hstep
+        simp only [mergeStep, mergeReplaceRoot_eq hb, mergePop_eq hb] at hstep
         cases hbuf : e.buf with
         | cons b bs => simp [hbuf] at hstep
         | nil =>
@@ -546,7 +620,7 @@ theorem mergeHeapLoop_spec {cmp : α → α → Ordering} (L : CmpLaws cmp) :
           cases hl : loadEntry e.id e.rest <;> simp [hl] at hstep
     | some p =>
       obtain ⟨x, h'⟩ := p
-      obtain ⟨hinv', hperm, hmin⟩ := mergeStep_spec L h hinv x h' hstep
+      obtain ⟨hinv', hperm, hmin⟩ := mergeStep_spec hb L h hinv x h' hstep
       have hlen' : (remaining h').length ≤ n := by
         have := hperm.length_eq
         rw [List.length_cons] at this
